@@ -155,6 +155,7 @@ pub fn dispatch(cmd: &str, args: &[String]) -> i32 {
         "eval" => eval_cmd(args),
         "game-history" => game_history(args),
         "minimax" => minimax_cmd(args),
+        "movegen-small" => movegen_small(args),
         "mate-in-one" => mate_in_one(args),
         "position-cmd" => position_cmd(args),
         "to-algebraic" => to_algebraic_all(args),
@@ -875,5 +876,70 @@ fn mate_in_one(args: &[String]) -> i32 {
         }
         if rep.distinct % 25 == 1 { rep.sample(jstr(&fen)); }
     }
+    rep.finish()
+}
+
+// ------------------------------------------------------------------------------------------------ C01 (small boards)
+fn empty_pos(stm: Col) -> RPos { RPos { sq: [None; 64], stm, wk: false, wq: false, bk: false, bq: false, ep: None } }
+fn cmp_movegen(mg: &MoveGenerator, p: &RPos, rep: &mut Report) -> bool {
+    let b = eng_board(p);
+    rep.evals += 1;
+    let ref_moves: BTreeSet<String> = legal_moves(p).iter().map(|m| m.uci()).collect();
+    let eng: Vec<Move> = mg.generate_moves(&b);
+    let eng_set: BTreeSet<String> = eng.iter().map(|m| m.to_algebraic()).collect();
+    if eng_set != ref_moves || eng_set.len() != eng.len() || mg.is_in_check(&b) != in_check(p, p.stm) {
+        let missing: Vec<&String> = ref_moves.difference(&eng_set).collect();
+        let extra: Vec<&String> = eng_set.difference(&ref_moves).collect();
+        rep.violation = Some(format!("{{\"input\": {{\"fen\": {}}}, \"real\": {{\"missing\": {:?}, \"extra\": {:?}, \"duplicates\": {}, \"is_in_check\": {}}}, \"expected\": \"generate_moves == legal moves of the rules; is_in_check == {}\"}}",
+            jstr(&to_fen(p)), missing, extra, eng.len() - eng_set.len(), mg.is_in_check(&b), in_check(p, p.stm)));
+        return false;
+    }
+    true
+}
+/// exhaustive small-board families (complete within each family, time-capped across families):
+///  (A) en passant: capturing pawn x pushed pawn x mover's king anywhere x one enemy line piece anywhere (x a second own man)
+///  (B) four men: both kings + one man of the mover + one enemy man (all kinds, all squares), either side to move
+fn movegen_small(args: &[String]) -> i32 {
+    let secs = num_arg(args, "secs", 60) as u64;
+    let t0 = std::time::Instant::now();
+    let mut rep = Report::new("movegen-small", &format!("exhaustive small-board families, time cap {} s: (A) all en-passant set-ups with the mover's king anywhere and one enemy bishop/rook/queen anywhere; (B) mover's king anywhere, enemy king on a1 or h8, one man each (all kinds, all squares, both sides to move), enumerated in a fixed order (enemy line pieces first) until the cap", secs));
+    let mg = MoveGenerator::new();
+    // (A)
+    for white in [true, false] {
+        let (me, op) = if white { (Col::W, Col::B) } else { (Col::B, Col::W) };
+        let (r5, r6, r7) = if white { (4usize, 5usize, 6usize) } else { (3usize, 2usize, 1usize) };
+        for f in 0..8usize { for df in [-1i32, 1] {
+            let vf = f as i32 + df; if !(0..8).contains(&vf) { continue; }
+            let from = r5 * 8 + f; let victim = r5 * 8 + vf as usize; let ep = r6 * 8 + vf as usize; let origin = r7 * 8 + vf as usize;
+            for ok in [if white { 63usize } else { 0 }, if white { 56 } else { 7 }] {
+                for k in 0..64usize { for sl in 0..64usize { for pc in [Pc::B, Pc::R, Pc::Q] {
+                    let mut p = empty_pos(me);
+                    let occ = [from, victim, ep, origin, ok, k, sl];
+                    let mut dup = false; for i in 0..occ.len() { for j in 0..i { if occ[i] == occ[j] { dup = true; } } }
+                    if dup { continue; }
+                    p.sq[from] = Some((me, Pc::P)); p.sq[victim] = Some((op, Pc::P)); p.sq[ok] = Some((op, Pc::K)); p.sq[k] = Some((me, Pc::K)); p.sq[sl] = Some((op, pc));
+                    p.ep = Some(ep as u8);
+                    if !valid(&p) { continue; }
+                    if !cmp_movegen(&mg, &p, &mut rep) { return rep.finish(); }
+                    rep.distinct += 1;
+                } } }
+                if t0.elapsed().as_secs() > secs / 2 { break; }
+            }
+        } }
+    }
+    let a_done = rep.distinct;
+    // (B)
+    let kinds = [Pc::Q, Pc::R, Pc::B, Pc::N, Pc::P];
+    'outer: for stm in [Col::W, Col::B] { for own in kinds { for en in kinds { for k in 0..64usize { for ek in [0usize, 63] { if ek == k { continue; }
+        for a in 0..64usize { if a == k || a == ek { continue; } for e in 0..64usize { if e == k || e == ek || e == a { continue; }
+            let mut p = empty_pos(stm);
+            p.sq[k] = Some((stm, Pc::K)); p.sq[ek] = Some((stm.other(), Pc::K)); p.sq[a] = Some((stm, own)); p.sq[e] = Some((stm.other(), en));
+            if !valid(&p) { continue; }
+            if !cmp_movegen(&mg, &p, &mut rep) { return rep.finish(); }
+            rep.distinct += 1;
+        } }
+        if t0.elapsed().as_secs() > secs { break 'outer; }
+    } } } } }
+    rep.sample(jstr(&format!("family A positions: {}, family B positions: {}", a_done, rep.distinct - a_done)));
     rep.finish()
 }
